@@ -72,7 +72,7 @@ structure SInv (input : List Nat) (c : Cfg) : Prop where
   tok : TokOk input c.ctx c.tok
 
 theorem liftTok_next_ctx {hist : List Tok} {stack : List StackItem} {res : List Tree}
-    {slice : Option Slice} {r : Ctx × Outcome Tok} {k : Option (Option Slice)} {c' : Cfg}
+    {slice : Option Slice} {r : Ctx × Outcome Tok} {k : Option (Option Slice × Nat)} {c' : Cfg}
     (h : liftTok hist stack res slice r k = .next c') :
     ∃ ctx1 tk, r = (ctx1, .ok tk) ∧ c'.tok = tk ∧ c'.ctx.pos = ctx1.pos ∧ c'.ctx.span = ctx1.span ∧
       c'.ctx.state = ctx1.state := by
@@ -259,7 +259,7 @@ theorem step_spans (env : Env) (nt : Ctx → Ctx × Outcome Tok) (c c' : Cfg)
 /-! ## The context the loop hands back, and the tree it returns -/
 
 theorem liftTok_stop_ctx {hist : List Tok} {stack : List StackItem} {res : List Tree}
-    {slice : Option Slice} {r : Ctx × Outcome Tok} {k : Option (Option Slice)} {ctx : Ctx}
+    {slice : Option Slice} {r : Ctx × Outcome Tok} {k : Option (Option Slice × Nat)} {ctx : Ctx}
     {o : Outcome ParseResult} (h : liftTok hist stack res slice r k = .stop ctx o) :
     ∃ o', r = (ctx, o') := by
   unfold liftTok at h
@@ -348,7 +348,7 @@ theorem step_done_spans (env : Env) (nt : Ctx → Ctx × Outcome Tok) (c : Cfg) 
           exact ⟨hinv.ctx, hinv.trees tr (by rw [hres]; simp)⟩
 
 theorem liftTok_stop_not_ok' {hist : List Tok} {stack : List StackItem} {res : List Tree}
-    {slice : Option Slice} {r : Ctx × Outcome Tok} {k : Option (Option Slice)} {ctx : Ctx}
+    {slice : Option Slice} {r : Ctx × Outcome Tok} {k : Option (Option Slice × Nat)} {ctx : Ctx}
     {o : Outcome ParseResult} (h : liftTok hist stack res slice r k = .stop ctx o) :
     ∀ pr, o ≠ .ok pr := by
   unfold liftTok at h
